@@ -303,6 +303,21 @@ def coq_deps(vfile):
     return sorted(seen)
 
 
+def coqchk(prop, timeout=1500):
+    """Thorough tier: re-check Props/<prop>.vo and everything it depends on with the independent checker.
+       Returns dict(ok, axioms:str, log)."""
+    with Lock("coq"):
+        rc, out = run(["coqchk", "-silent", "-o", "-Q", ".", "Stk", "Stk.Props." + prop], cwd=COQ, timeout=timeout)
+    m = re.search(r"\* Axioms:(.*?)\n\s*\n\* Constants/Inductives relying on type-in-type:(.*?)\n", out, re.S)
+    axioms = " ".join(m.group(1).split()) if m else "?"
+    bad = rc != 0 or not m or "<none>" not in (m.group(2) if m else "")
+    for sect in ("relying on unsafe (co)fixpoints", "positivity is assumed"):
+        mm = re.search(re.escape(sect) + r":(.*?)\n", out)
+        if not mm or "<none>" not in mm.group(1):
+            bad = True
+    return dict(ok=not bad, axioms=axioms, log=out[-3000:])
+
+
 def count_theorems(vfiles):
     """Count Lemma/Theorem/... statements in the given coq-relative files (for evidence)."""
     n = 0
